@@ -42,6 +42,12 @@ type Contract struct {
 	Opts     map[string]string
 	Fresh    []string // result names that are freshly allocated
 	Monitors []*monitorDecl
+	CallSites []callSiteRule
+}
+
+type callSiteRule struct {
+	callee string
+	req    *SpecExpr
 }
 
 type SpecMacro struct {
@@ -220,7 +226,7 @@ var clauseKeywords = map[string]bool{
 	"requires": true, "ensures": true, "modifies": true, "loop": true, "nooverflow": true,
 	"nilable": true, "may_alias": true, "trusted": true, "pure": true, "ghost": true,
 	"opt": true, "fresh": true, "params": true, "results": true, "maypanic": true,
-	"guarded_by": true, "monitor": true,
+	"guarded_by": true, "monitor": true, "callsite": true,
 }
 
 // loadSpecFile parses one file of //@ lines. pkgPath scopes the func keys.
@@ -421,6 +427,18 @@ func (db *SpecDB) loadSpecFile(path, pkgPath string) error {
 				} else {
 					cur.Opts[strings.TrimSpace(rest)] = "1"
 				}
+			case "callsite":
+				// callsite <callee name> requires <expr>: every call of that function/method (by name) made
+				// while executing this function, directly or in inlined callees, must satisfy expr
+				k := strings.Index(rest, " requires ")
+				if k < 0 {
+					return fmt.Errorf("%s:%d: callsite needs '<callee> requires <expr>'", path, l.line)
+				}
+				e, err := parseSpecExpr(rest[k+len(" requires "):], path, l.line)
+				if err != nil {
+					return err
+				}
+				cur.CallSites = append(cur.CallSites, callSiteRule{callee: strings.TrimSpace(rest[:k]), req: e})
 			case "guarded_by", "monitor":
 				k := strings.Index(rest, ":")
 				if k < 0 {
